@@ -49,6 +49,23 @@ def run(chk, replay=None):
         q.is_layout = True
         relaid.append(q)
     progs = progs + relaid
+    # templates with parameters: accepted + consistent arguments => instantiate is Ok (arguments of every aggregate shape,
+    # lists of every length below their bound)
+    import gen
+    tprogs = [g for g in corelib.gen_programs(chk, 120 if quick else 1500, "gtmpl", size=30) if g.params]
+    for k in (1, 2, 3, 4):
+        for n in range(1 << k):
+            lv = ("li", ("U", 3), k, tuple(("u", 3, (7 * i + 1) % 256) for i in range(n)))
+            q = Prog("fn main() { let l: List<u8, %d> = param::L; let p: (u8, List<u8, %d>) = (1, param::L); }" % (1 << k, 1 << k), [], "tmpl-list/%d/%d" % (k, n), params=[("L", ("L", ("U", 3), k), lv)])
+            tprogs.append(q)
+    tl = ["(commit %s %s 0)" % (quote(g.text), corelib.bindings_sx([(n, v) for (n, _, v) in g.params])) for g in tprogs]
+    for g, ln, x in zip(tprogs, tl, impl("core", tl)):
+        chk.case(ln, sample={"program": g.text[:200], "outcome": x[:60]})
+        chk.count("instantiate." + x.split(" ")[0].strip("("))
+        if not x.startswith("(ok") and not x.startswith("(rej"):
+            chk.violation({"class": "accepted-but-not-compiled", "what": "%s || %s" % (x[:160], g.text[:300])},
+                          {"program": g.text, "arguments": corelib.bindings_sx([(n, v) for (n, _, v) in g.params]), "implementation": x, "cmd": "core", "line": ln,
+                           "broken": "TemplateProgram::new accepted the text and the arguments are consistent, but instantiate failed or panicked"})
     # D gate: TemplateProgram::new accepts => instantiate(no args) is Ok and commit() is 1 -> 1
     lines = ["(compile %s)" % quote(g.text) for g in progs]
     res = impl("front", lines)
